@@ -35,7 +35,25 @@ func init() {
 			out := c.sel(func(o *an.Oblig) bool {
 				return ruleIn(o, "G", "CLS", "ESC", "HO", "ANCHOR") || isUndecided(o)
 			})
-			return append(out, c.C.List...)
+			out = append(out, c.C.List...)
+			// the premises of the reasoned exceptions are obligations of this property too: an unlocked read is race-free
+			// only while the ordering argument in its "Why" holds
+			mark := len(c.C.List)
+			exclusiveC10(c)     // Exclusive work read: item fields are written only while the item is the one in the map, under both locks
+			workerRules(c)      // Worker.do's reads of stop/done: reset only after <-done, done closed only after fn returned
+			cooldownProtocol(c) // cleanup timer cell: written before the go statement, cleared only by that goroutine's deferred reset
+			premise := func(o *an.Oblig) bool {
+				return subjHas(o, "attaches only to the item currently in the map", "Exclusive validate->", "the instance slot is freed only after the instance exited",
+					"done is closed only after the function returned", "the cooldown timer is never re-armed", "the cooldown is always cleared when the timer goroutine exits",
+					"arming the cooldown always starts the timer goroutine")
+			}
+			for _, o := range c.C.List[mark:] {
+				if premise(o) || isUndecided(o) || o.Rule == "ANCHOR" {
+					out = append(out, o)
+				}
+			}
+			out = append(out, c.sel(func(o *an.Oblig) bool { return o.Rule == "AT" && premise(o) })...)
+			return out
 		},
 		Floors: append(guardedFloors(),
 			floorRule("G obligations (half of the confirmed count)", "G", 60),
